@@ -22,6 +22,18 @@ pub struct StrErr {
     pub at: usize,
     /// value evaluated up to the error
     pub partial: Vec<u16>,
+    /// (source index, value length before) of every item evaluated before the error
+    pub items: Vec<(usize, usize)>,
+}
+
+/// An evaluated string literal. An *item* is one source character or one escape sequence.
+#[derive(Clone, Debug, Default, PartialEq, Eq, PartialOrd, Ord)]
+pub struct Lit {
+    pub value: Vec<u16>,
+    /// index just after the closing quote
+    pub end: usize,
+    /// (source index, value length before) of every item, in order
+    pub items: Vec<(usize, usize)>,
 }
 
 fn push_cp(v: &mut Vec<u16>, cp: u32) {
@@ -36,22 +48,29 @@ fn push_cp(v: &mut Vec<u16>, cp: u32) {
 
 /// Evaluate the string literal starting at `s[i]` (which must be `'` or `"`).
 /// Returns the string value and the index just after the closing quote.
-pub fn string_literal(s: &[char], i: usize) -> Result<(Vec<u16>, usize), StrErr> {
+pub fn string_literal(s: &[char], i: usize) -> Result<Lit, StrErr> {
     let mut v: Vec<u16> = Vec::new();
+    let mut items: Vec<(usize, usize)> = Vec::new();
     let q = match s.get(i) {
         Some(c @ ('\'' | '"')) => *c,
-        _ => return Err(StrErr { kind: StrErrKind::NotAString, at: i, partial: v }),
+        _ => return Err(StrErr { kind: StrErrKind::NotAString, at: i, partial: v, items }),
     };
     let mut i = i + 1;
     loop {
-        let Some(&c) = s.get(i) else { return Err(StrErr { kind: StrErrKind::Eof, at: i, partial: v }) };
+        let Some(&c) = s.get(i) else { return Err(StrErr { kind: StrErrKind::Eof, at: i, partial: v, items }) };
         if c == q {
-            return Ok((v, i + 1));
+            return Ok(Lit { value: v, end: i + 1, items });
+        }
+        if c != '\n' && c != '\r' {
+            items.push((i, v.len()));
         }
         match c {
-            '\n' | '\r' => return Err(StrErr { kind: StrErrKind::LineTerminator, at: i, partial: v }),
+            '\n' | '\r' => return Err(StrErr { kind: StrErrKind::LineTerminator, at: i, partial: v, items }),
             '\\' => {
-                let Some(&e) = s.get(i + 1) else { return Err(StrErr { kind: StrErrKind::Eof, at: i + 1, partial: v }) };
+                let Some(&e) = s.get(i + 1) else {
+                    items.pop();
+                    return Err(StrErr { kind: StrErrKind::Eof, at: i + 1, partial: v, items });
+                };
                 i += 2;
                 match e {
                     // LineContinuation
@@ -68,14 +87,20 @@ pub fn string_literal(s: &[char], i: usize) -> Result<(Vec<u16>, usize), StrErr>
                     'f' => v.push(0x0c),
                     'v' => v.push(0x0b),
                     '0' if !matches!(s.get(i), Some(d) if d.is_ascii_digit()) => v.push(0),
-                    '0'..='9' => return Err(StrErr { kind: StrErrKind::BadEscape, at: i - 2, partial: v }),
+                    '0'..='9' => {
+                        items.pop();
+                        return Err(StrErr { kind: StrErrKind::BadEscape, at: i - 2, partial: v, items });
+                    },
                     'x' => {
                         let h: Vec<char> = s.get(i..i + 2).map(|x| x.to_vec()).unwrap_or_default();
                         if h.len() == 2 && h.iter().all(|c| c.is_ascii_hexdigit()) {
                             v.push((h[0].to_digit(16).unwrap() * 16 + h[1].to_digit(16).unwrap()) as u16);
                             i += 2;
                         } else {
-                            return Err(StrErr { kind: StrErrKind::BadEscape, at: i - 2, partial: v });
+                            {
+                        items.pop();
+                        return Err(StrErr { kind: StrErrKind::BadEscape, at: i - 2, partial: v, items });
+                    };
                         }
                     }
                     'u' => {
@@ -89,7 +114,10 @@ pub fn string_literal(s: &[char], i: usize) -> Result<(Vec<u16>, usize), StrErr>
                                 j += 1;
                             }
                             if n == 0 || s.get(j) != Some(&'}') || cp > 0x10FFFF {
-                                return Err(StrErr { kind: StrErrKind::BadEscape, at: i - 2, partial: v });
+                                {
+                        items.pop();
+                        return Err(StrErr { kind: StrErrKind::BadEscape, at: i - 2, partial: v, items });
+                    };
                             }
                             push_cp(&mut v, cp);
                             i = j + 1;
@@ -99,7 +127,10 @@ pub fn string_literal(s: &[char], i: usize) -> Result<(Vec<u16>, usize), StrErr>
                                 v.push(h.iter().fold(0u32, |a, c| a * 16 + c.to_digit(16).unwrap()) as u16);
                                 i += 4;
                             } else {
-                                return Err(StrErr { kind: StrErrKind::BadEscape, at: i - 2, partial: v });
+                                {
+                        items.pop();
+                        return Err(StrErr { kind: StrErrKind::BadEscape, at: i - 2, partial: v, items });
+                    };
                             }
                         }
                     }
@@ -129,9 +160,9 @@ pub struct Fetcher {
 
 #[derive(Clone, Debug)]
 pub enum PropVal {
-    CreateUrl(Vec<u16>),
+    CreateUrl(Lit),
     Ident(String),
-    Object(Vec<(Vec<u16>, Vec<u16>)>),
+    Object(Vec<(Lit, Lit)>),
 }
 
 #[derive(Clone, Debug)]
@@ -228,9 +259,9 @@ pub fn parse_fetcher(s: &[char], start: usize) -> (Option<Fetcher>, Vec<Issue>) 
                     }
                     p.ws();
                     let k = match string_literal(s, p.i) {
-                        Ok((v, e)) => {
-                            p.i = e;
-                            v
+                        Ok(l) => {
+                            p.i = l.end;
+                            l
                         }
                         Err(err) => {
                             issues.push(Issue::Str { prop: name.clone(), entry: entries.len(), role: "key", err });
@@ -241,7 +272,7 @@ pub fn parse_fetcher(s: &[char], start: usize) -> (Option<Fetcher>, Vec<Issue>) 
                         // hand the evaluated key to the caller: the literal itself was fine but ended too early / late
                         f.props.push((name.clone(), PropVal::Object({
                             let mut e = entries.clone();
-                            e.push((k, Vec::new()));
+                            e.push((k, Lit::default()));
                             e
                         })));
                         issues.push(Issue::Syntax { prop: name.clone(), entry: entries.len(), role: "key", at: p.i, expected: ":", found: p.found() });
@@ -249,14 +280,14 @@ pub fn parse_fetcher(s: &[char], start: usize) -> (Option<Fetcher>, Vec<Issue>) 
                     }
                     p.ws();
                     let v = match string_literal(s, p.i) {
-                        Ok((v, e)) => {
-                            p.i = e;
-                            v
+                        Ok(l) => {
+                            p.i = l.end;
+                            l
                         }
                         Err(err) => {
                             f.props.push((name.clone(), PropVal::Object({
                                 let mut e = entries.clone();
-                                e.push((k, Vec::new()));
+                                e.push((k, Lit::default()));
                                 e
                             })));
                             issues.push(Issue::Str { prop: name.clone(), entry: entries.len(), role: "value", err });
@@ -278,8 +309,8 @@ pub fn parse_fetcher(s: &[char], start: usize) -> (Option<Fetcher>, Vec<Issue>) 
                 if id == "createUrl" && p.eat('(') {
                     p.ws();
                     match string_literal(s, p.i) {
-                        Ok((v, e)) => {
-                            p.i = e;
+                        Ok(v) => {
+                            p.i = v.end;
                             if !p.eat(')') {
                                 f.props.push((name.clone(), PropVal::CreateUrl(v)));
                                 issues.push(Issue::Syntax { prop: name.clone(), entry: 0, role: "arg", at: p.i, expected: ")", found: p.found() });
@@ -333,7 +364,7 @@ mod tests {
         s.chars().collect()
     }
     fn ev(s: &str) -> Result<String, StrErrKind> {
-        string_literal(&cs(s), 0).map(|(v, _)| String::from_utf16_lossy(&v)).map_err(|e| e.kind)
+        string_literal(&cs(s), 0).map(|l| String::from_utf16_lossy(&l.value)).map_err(|e| e.kind)
     }
     #[test]
     fn literals() {
